@@ -293,7 +293,11 @@ func init() {
 func init() {
 	Register(&PropDef{ID: "C19",
 		Profile: func(tier string, r *Rng) Profile {
-			return Profile{Name: "c19-authority", MinTx: 3, MaxTx: 9, Hostile: 0.2, VoteFault: 0.02, GapBig: 0.06, Gov: true, Fragments: []string{"mintInit"},
+			frs := []string{"mintInit"}
+			if r.Pick(3) == 0 { // a reporter with more selectors than a lowered cap, selectors with stake on a jailed validator
+				frs = append(frs, "overfullReporter")
+			}
+			return Profile{Name: "c19-authority", MinTx: 3, MaxTx: 9, Hostile: 0.2, VoteFault: 0.02, GapBig: 0.06, Gov: true, Fragments: frs,
 				W: map[string]float64{"privileged": 8, "updateTeam": 3, "registerSpec": 4, "removeSelector": 5, "withdrawFeeRefund": 5, "claimReward": 4, "withdrawTip": 5, "unjailReporter": 4,
 					"selectReporter": 5, "switchReporter": 4, "proposeDispute": 5, "addFee": 4, "vote": 6, "govProposal": 1.5, "govVote": 5, "send": 3, "delegate": 5, "undelegate": 3, "redelegate": 2, "multiStake": 3, "submit": 20}}
 		},
